@@ -261,6 +261,11 @@ def build(template_path, out_path, canary=False, repo=None, mutate=None):
             from .rustlex import line_of
             s, e, l0, l1 = cs, ce, line_of(sf.src, cs), line_of(sf.src, ce)
             cut.name = marm.group(2)
+        elif re.match(r"nested (.*) in (fn .*|method .*)$", cut.selector):
+            mn = re.match(r"nested (.*) in (fn .*|method .*)$", cut.selector)
+            it = sf.find_nested(sf.find(mn.group(2)), mn.group(1))
+            raw = sf.text(it)
+            s, e, l0, l1 = sf.span(it)
         else:
             it = sf.find(cut.selector)
             raw = sf.text(it)
